@@ -36,6 +36,8 @@ pub mod permutation;
 pub(crate) mod traces;
 pub(crate) mod trash;
 pub(crate) mod vanishing;
+#[cfg(feature = "verif-hooks")]
+pub mod verif_hooks;
 
 #[cfg(feature = "bench-internal")]
 pub mod bench;
